@@ -52,8 +52,14 @@ func ruleBasicSampler(r *Run, p *Prog) {
 		}
 		cs := pa.Cmps()
 		res := pa.Resolve(ret.Results[0])
-		is0 := hasCmp(cs, func(op token.Token, x, y ssa.Value) bool { n, ok := constInt(y); return ok && isN(x) && op == token.EQL && n == 0 })
-		is1 := hasCmp(cs, func(op token.Token, x, y ssa.Value) bool { n, ok := constInt(y); return ok && isN(x) && op == token.EQL && n == 1 })
+		is0 := hasCmp(cs, func(op token.Token, x, y ssa.Value) bool {
+			n, ok := constInt(y)
+			return ok && isN(x) && op == token.EQL && n == 0
+		})
+		is1 := hasCmp(cs, func(op token.Token, x, y ssa.Value) bool {
+			n, ok := constInt(y)
+			return ok && isN(x) && op == token.EQL && n == 1
+		})
 		// does the path touch the counter?
 		var add *ssa.Call
 		for _, in := range pa.Instrs() {
@@ -131,8 +137,14 @@ func ruleBurstSampler(r *Run, p *Prog) {
 		}
 		cs := pa.Cmps()
 		res := pa.Resolve(ret.Results[0])
-		burstOn := hasCmp(cs, func(op token.Token, x, y ssa.Value) bool { n, ok := constInt(y); return ok && isBurst(x) && ((op == token.GTR && n == 0) || (op == token.NEQ && n == 0)) })
-		periodOn := hasCmp(cs, func(op token.Token, x, y ssa.Value) bool { n, ok := constInt(y); return ok && isPeriod(x) && op == token.GTR && n == 0 })
+		burstOn := hasCmp(cs, func(op token.Token, x, y ssa.Value) bool {
+			n, ok := constInt(y)
+			return ok && isBurst(x) && ((op == token.GTR && n == 0) || (op == token.NEQ && n == 0))
+		})
+		periodOn := hasCmp(cs, func(op token.Token, x, y ssa.Value) bool {
+			n, ok := constInt(y)
+			return ok && isPeriod(x) && op == token.GTR && n == 0
+		})
 		within := hasCmp(cs, func(op token.Token, x, y ssa.Value) bool { return isInc(x) && isBurst(y) && op == token.LEQ })
 		beyond := hasCmp(cs, func(op token.Token, x, y ssa.Value) bool { return isInc(x) && isBurst(y) && op == token.GTR })
 		calledInc := false
